@@ -27,9 +27,12 @@ import (
 	"context"
 	"errors"
 	"fmt"
+	"io"
 	"log/slog"
 	"math"
+	"os"
 	"regexp"
+	"runtime"
 	"sort"
 	"strconv"
 	"strings"
@@ -62,8 +65,17 @@ type sink struct {
 	seen     int
 	sentSeq  int
 	root     *tracelog.Handler
-	sentinel *errs.Error // the long-lived error of mode `fails`: the same pointer on every call
+	sentinel *errs.Error    // the long-lived error of mode `fails`: the same pointer on every call
+	agg      *errs.Error    // the long-lived two-element aggregate of mode `failm`
+	lvar     *slog.LevelVar // non-nil when the handler family was created with a shared LevelVar
 }
+
+// foreignErr is an error type of somebody else; a nil *foreignErr in an error interface is a "typed nil".
+type foreignErr struct{}
+
+func (e *foreignErr) Error() string { return "foreign-nil" }
+
+type nothing struct{ _ int }
 
 func (s *sink) Write(p []byte) (int, error) {
 	s.mu.Lock()
@@ -94,10 +106,25 @@ func (s *sink) Write(p []byte) (int, error) {
 		return 0, errs.New("sinkfail" + id)
 	case "fails": // the sink's sentinel *errs.Error
 		return 0, s.sentinel
+	case "failm": // the sink's long-lived aggregate of two errors
+		return 0, s.agg
+	case "failn": // a nil *errs.Error inside a non-nil error interface
+		return 0, (*errs.Error)(nil)
+	case "failf": // a nil pointer of a foreign error type
+		return 0, (*foreignErr)(nil)
 	case "panic":
 		panic("sinkpanic" + id)
 	case "panice":
 		panic(errors.New("sinkpanic" + id))
+	case "panicr": // a runtime error
+		var m map[int]int
+		m[s.id] = 1
+	case "panicp": // a typed nil pointer that is not an error
+		panic((*nothing)(nil))
+	case "panicn": // panic(nil): the runtime turns it into *runtime.PanicNilError
+		panic(nil) //nolint:govet // on purpose
+	case "panics": // the sentinel itself as the panic value
+		panic(s.sentinel)
 	}
 	return len(p), nil
 }
@@ -148,12 +175,31 @@ type session struct {
 
 var cur = &session{handlers: map[string]slog.Handler{}, sinks: map[int]*sink{}}
 
+// hangs counts calls that ran into their deadline in this process; after three the stream is answered with "dead"
+// at once (a hang has been reported; do not pay the deadline thousands of times).
+var hangs int
+
+// panicText names a panic value; the wording of the Go runtime's own errors is not compared.
+func panicText(rec any) string {
+	switch v := rec.(type) {
+	case *errs.Error:
+		if v != nil {
+			return v.Message()
+		}
+	case *runtime.PanicNilError:
+		return "PANICNIL"
+	case runtime.Error:
+		return "RUNTIMEERR"
+	}
+	return fmt.Sprint(rec)
+}
+
 func callHandle(h slog.Handler, r slog.Record) string {
 	ch := make(chan string, 1)
 	go func() {
 		defer func() {
 			if rec := recover(); rec != nil {
-				ch <- "ret=panic:" + fmt.Sprint(rec)
+				ch <- "ret=panic:" + panicText(rec)
 			}
 		}()
 		ch <- fmtErr(h.Handle(ctx, r))
@@ -162,6 +208,7 @@ func callHandle(h slog.Handler, r slog.Record) string {
 	case s := <-ch:
 		return s
 	case <-time.After(2 * time.Second):
+		hangs++
 		return "ret=blocked"
 	}
 }
@@ -185,20 +232,28 @@ func fmtErr(err error) string {
 			items = append(items, "E:"+w.Error())
 			continue
 		}
+		// a recovered panic is an error ABOUT a cause (its own message is not the cause's); an error a child returned is
+		// either a *errs.Error without cause or a wrapper whose message IS the cause's.  The wording of the library's
+		// own message is not compared.
 		cause := errors.Unwrap(we)
-		if we.Message() == "recovered from panic" && cause != nil {
-			var ce *errs.Error
-			if errors.As(cause, &ce) && cause == error(ce) {
-				items = append(items, "P:"+ce.Message())
+		causeMsg := ""
+		if cause != nil {
+			if ce, isE := cause.(*errs.Error); isE { //nolint:errorlint // see above
+				causeMsg = ce.Message()
+			} else if _, isR := cause.(runtime.Error); isR { //nolint:errorlint // see above
+				causeMsg = panicText(cause)
 			} else {
-				items = append(items, "P:"+cause.Error())
+				causeMsg = cause.Error()
 			}
+		}
+		if cause != nil && we.Message() != causeMsg {
+			items = append(items, "P:"+causeMsg)
 		} else {
 			items = append(items, "E:"+we.Message())
 		}
 	}
-	if len(items) > 16 { // a correct aggregate has one item per child; keep a runaway chain printable
-		items = append(items[:16], "...")
+	if len(items) > 200 { // a correct aggregate has at most two items per child; keep a runaway chain printable
+		items = append(items[:200], "...")
 	}
 	return "ret=" + strconv.Itoa(e.Count()) + "[" + strings.Join(items, ",") + "]"
 }
@@ -270,11 +325,20 @@ func (ss *session) sentinels() string {
 			parts = append(parts, fmt.Sprintf("%d:%d:runaway", id, e.Count()))
 			continue
 		}
-		msg := e.Message()
-		if len(msg) > 64 { // a sentinel's message never changes; keep a runaway chain printable
-			msg = msg[:64] + "~" + strconv.Itoa(len(msg))
+		a := ss.sinks[id].agg
+		if a.Count() > 64 {
+			ss.dead = true
+			parts = append(parts, fmt.Sprintf("%d:agg:%d:runaway", id, a.Count()))
+			continue
 		}
-		parts = append(parts, fmt.Sprintf("%d:%d:%s", id, e.Count(), hx.Hex([]byte(msg))))
+		msg, amsg := e.Message(), a.Message()
+		if len(msg) > 96 { // a sentinel's message never changes; keep a runaway chain printable
+			msg = msg[:96] + "~" + strconv.Itoa(len(msg))
+		}
+		if len(amsg) > 96 {
+			amsg = amsg[:96] + "~" + strconv.Itoa(len(amsg))
+		}
+		parts = append(parts, fmt.Sprintf("%d:%d:%s:%d:%s", id, e.Count(), hx.Hex([]byte(msg)), a.Count(), hx.Hex([]byte(amsg))))
 	}
 	return "sent=" + strings.Join(parts, ",")
 }
@@ -287,12 +351,15 @@ func (logArea) Run(line string) string {
 		return "bad-op"
 	}
 	ss := cur
-	if ss.dead && f[0] != "reset" {
+	if hangs >= 3 || (ss.dead && f[0] != "reset") {
 		return "dead"
 	}
 	out := ss.run(f)
 	if strings.Contains(out, "blocked") || strings.Contains(out, "stuck") {
 		ss.dead = true
+		if strings.Contains(out, "stuck") {
+			hangs++
+		}
 	}
 	return out
 }
@@ -314,9 +381,10 @@ func (ss *session) run(f []string) string {
 			return "bad-op"
 		}
 		id := hx.Atoi(f[2])
-		s := &sink{id: id, mode: "ok", depth: hx.Atoi(f[4]), sentinel: errs.New("sinksentinel" + f[2])}
+		s := &sink{id: id, mode: "ok", depth: max(hx.Atoi(f[4]), 0), sentinel: errs.New("sinksentinel" + f[2])}
+		s.agg = errs.Append(errs.New("sinkagg"+f[2]+"a"), errs.New("sinkagg"+f[2]+"b"))
 		s.cond = sync.NewCond(&s.mu)
-		cfg := &tracelog.Config{Level: slog.Level(hx.Atoi(f[3])), Sink: s, BufferDepth: s.depth}
+		cfg := &tracelog.Config{Level: leveler(f[3], s), Sink: s, BufferDepth: hx.Atoi(f[4])}
 		if len(f) > 5 {
 			cfg.LevelNames = map[slog.Level]string{}
 			for _, w := range f[5:] {
@@ -328,6 +396,34 @@ func (ss *session) run(f []string) string {
 		ss.sinks[id] = s
 		ss.handlers[f[1]] = s.root
 		return "ok"
+	case "setlevel": // change the LevelVar shared by a handler family
+		if len(f) != 3 {
+			return "bad-op"
+		}
+		s, ok := ss.sinks[hx.Atoi(f[1])]
+		if !ok || s.lvar == nil {
+			return "bad-op"
+		}
+		s.lvar.Set(slog.Level(hx.Atoi(f[2])))
+		return "ok"
+	case "norm": // Config.Normalize on its own
+		if len(f) != 4 {
+			return "bad-op"
+		}
+		given := &sink{}
+		cfg := tracelog.Config{Level: leveler(f[1], given), BufferDepth: hx.Atoi(f[2])}
+		if f[3] == "1" {
+			cfg.Sink = given
+		}
+		cfg.Normalize()
+		where := "other"
+		switch cfg.Sink {
+		case io.Writer(given):
+			where = "given"
+		case io.Writer(os.Stderr):
+			where = "stderr"
+		}
+		return fmt.Sprintf("level=%d depth=%d sink=%s", int(cfg.Level.Level()), cfg.BufferDepth, where)
 	case "mnew":
 		kids := make([]slog.Handler, 0, len(f)-2)
 		for _, k := range f[2:] {
@@ -383,8 +479,8 @@ func (ss *session) run(f []string) string {
 			return "bad-op"
 		}
 		switch f[2] {
-		case "ok", "fail", "faile", "fails":
-		case "panic", "panice":
+		case "ok", "fail", "faile", "fails", "failm", "failn", "failf":
+		case "panic", "panice", "panicr", "panicp", "panicn", "panics":
 			if s.depth > 0 { // a panic in the delivery goroutine would kill the process
 				return "bad-op"
 			}
@@ -449,33 +545,34 @@ func (ss *session) run(f []string) string {
 			ret += " stuck"
 		}
 		return strings.Join(append(ss.collect(nil), ret, ss.sentinels()), " ")
-	case "logerr":
+	case "logerr": // logerr <h> <level> <msg> attr*  ==  logx LogAttrsWithLevel bg h e <h> <level> <msg> attr*
 		if len(f) < 4 {
 			return "bad-op"
 		}
-		h, ok := ss.handlers[f[1]]
-		if !ok {
-			return "bad-op"
-		}
-		for _, s := range ss.sinks {
-			if s.held {
-				return "bad-op"
-			}
-		}
-		nodes, ok := parseNodes(f[4:])
-		if !ok {
-			return "bad-op"
-		}
-		return ss.logErr(h, slog.Level(hx.Atoi(f[2])), string(hx.UnHex(f[3])), buildAttrs(nodes))
+		return ss.logX(append([]string{"logx", "LogAttrsWithLevel", "bg", "h", "e"}, f[1:]...))
+	case "logx": // logx <api> <ctx: bg|nil> <logger: h|nil> <err: e|p|n|t> <h> <level> <msg> attr*
+		return ss.logX(f)
 	}
 	return "bad-op"
 }
 
-func sameOrNew(p, n slog.Handler) string {
-	if p == n {
-		return "same"
+// sameOrNew: whether a derivation returns the receiver or a copy is not something the property constrains.
+func sameOrNew(_, _ slog.Handler) string { return "ok" }
+
+// leveler decodes the level field of `new`/`norm`: a number, `nil` (no Leveler), `tnil` (a nil *slog.LevelVar inside the
+// interface) or `var:<n>` (a *slog.LevelVar shared by the whole handler family, see `setlevel`).
+func leveler(tok string, s *sink) slog.Leveler {
+	switch {
+	case tok == "nil":
+		return nil
+	case tok == "tnil":
+		return (*slog.LevelVar)(nil)
+	case strings.HasPrefix(tok, "var:"):
+		s.lvar = &slog.LevelVar{}
+		s.lvar.Set(slog.Level(hx.Atoi(tok[4:])))
+		return s.lvar
 	}
-	return "new"
+	return slog.Level(hx.Atoi(tok))
 }
 
 func mkTime(sec, nsec int64, zone int) time.Time {
@@ -486,51 +583,165 @@ func mkTime(sec, nsec int64, zone int) time.Time {
 	return time.Unix(sec, nsec).In(loc)
 }
 
-var stampRx = regexp.MustCompile(` \| (\d{4}-\d{2}-\d{2}) \| (\d{2}:\d{2}:\d{2}\.\d{3}) \| `)
+var (
+	stampRx     = regexp.MustCompile(` \| (\d{4}-\d{2}-\d{2}) \| (\d{2}:\d{2}:\d{2}\.\d{3}) \| `)
+	stackLineRx = regexp.MustCompile(`^    \[[^\n]+\] [^\s]+:\d+$`)
+	fbRx        = regexp.MustCompile(`stack_trace=\[(?:\[[^\]\n]*\] [^\s\]]+:\d+ ?)+\]`)
+)
 
-// logErr logs a real *errs.Error through errs.LogAttrsWithLevel.  The time stamp (time.Now inside errs) and the stack
-// text (addresses of this binary) are replaced by placeholders after being checked against independent values: the
-// stamp must lie in the window of the call, the stack text must be err.StackTrace(true) and follow the main line.
-func (ss *session) logErr(h slog.Handler, level slog.Level, msg string, attrs []slog.Attr) string {
-	e := errs.New(msg)
-	trace := e.StackTrace(true)
-	lines := strings.Split(trace, "\n")
-	for i := range lines {
-		lines[i] = strings.TrimSpace(lines[i])
+func stackShaped(text string) bool {
+	if text == "" {
+		return false
 	}
-	fb := fmt.Sprint(lines)
+	for _, l := range strings.Split(text, "\n") {
+		if !stackLineRx.MatchString(l) {
+			return false
+		}
+	}
+	return true
+}
+
+// logX logs an error through one of the ten errs.Log* entry points.  The time stamp (time.Now inside errs) and the
+// stack text (addresses of this binary) are replaced by placeholders after being checked independently: the stamp must
+// lie in the window of the call; the stack text must FOLLOW the main line inside the same Write, consist of lines of
+// the shape `    [function] file:line`, and — when the harness created the *errs.Error itself — equal
+// err.StackTrace(true) and start in this function.
+func (ss *session) logX(f []string) string {
+	if len(f) < 8 {
+		return "bad-op"
+	}
+	api, ctxKind, lgKind, errKind := f[1], f[2], f[3], f[4]
+	h, ok := ss.handlers[f[5]]
+	if !ok {
+		return "bad-op"
+	}
+	for _, s := range ss.sinks {
+		if s.held {
+			return "bad-op"
+		}
+	}
+	nodes, ok := parseNodes(f[8:])
+	if !ok {
+		return "bad-op"
+	}
+	level, msg, attrs := slog.Level(hx.Atoi(f[6])), string(hx.UnHex(f[7])), buildAttrs(nodes)
+	var err error
+	trace, fb := "", ""
+	switch errKind {
+	case "e":
+		e := errs.New(msg)
+		err = e
+		trace = e.StackTrace(true)
+		lines := strings.Split(trace, "\n")
+		for i := range lines {
+			lines[i] = strings.TrimSpace(lines[i])
+		}
+		fb = fmt.Sprint(lines)
+		if !stackShaped(trace) || !strings.Contains(lines[0], "logX") {
+			return "bad-stack-text"
+		}
+	case "p":
+		err = errors.New(msg)
+	case "n":
+	case "t":
+		err = (*errs.Error)(nil)
+	default:
+		return "bad-op"
+	}
+	var c context.Context = ctx //nolint:staticcheck // a nil context is one of the inputs
+	if ctxKind == "nil" {
+		c = nil
+	}
+	logger := slog.New(h)
+	passed := logger
+	if lgKind == "nil" {
+		passed = nil
+	}
+	anyArgs := make([]any, len(attrs))
+	for i, a := range attrs {
+		anyArgs[i] = a
+	}
+	var call func()
+	switch api {
+	case "Log":
+		call = func() { errs.Log(err, anyArgs...) }
+	case "LogContext":
+		call = func() { errs.LogContext(c, err, anyArgs...) }
+	case "LogTo":
+		call = func() { errs.LogTo(passed, err, anyArgs...) }
+	case "LogContextTo":
+		call = func() { errs.LogContextTo(c, passed, err, anyArgs...) }
+	case "LogWithLevel":
+		call = func() { errs.LogWithLevel(c, level, passed, err, anyArgs...) }
+	case "LogAttrs":
+		call = func() { errs.LogAttrs(err, attrs...) }
+	case "LogAttrsContext":
+		call = func() { errs.LogAttrsContext(c, err, attrs...) }
+	case "LogAttrsTo":
+		call = func() { errs.LogAttrsTo(passed, err, attrs...) }
+	case "LogAttrsContextTo":
+		call = func() { errs.LogAttrsContextTo(c, passed, err, attrs...) }
+	case "LogAttrsWithLevel":
+		call = func() { errs.LogAttrsWithLevel(c, level, passed, err, attrs...) }
+	default:
+		return "bad-op"
+	}
+	prev := slog.Default()
+	slog.SetDefault(logger) // the entry points without a logger (and a nil logger) use the default one
 	t0 := time.Now().Truncate(time.Millisecond)
 	done := make(chan string, 1)
 	go func() {
 		defer func() {
 			if rec := recover(); rec != nil {
-				done <- "ret=panic:" + fmt.Sprint(rec)
+				done <- "ret=panic:" + panicText(rec)
 			}
 		}()
-		errs.LogAttrsWithLevel(ctx, level, slog.New(h), e, attrs...)
+		call()
 		done <- "ret=void"
 	}()
 	var ret string
 	select {
 	case ret = <-done:
 	case <-time.After(2 * time.Second):
+		hangs++
 		ret = "ret=blocked"
 	}
 	t1 := time.Now()
+	slog.SetDefault(prev)
 	if !ss.settle() {
 		ret += " stuck"
 	}
 	canon := func(w []byte) []byte {
 		if m := stampRx.FindSubmatchIndex(w); m != nil {
-			t, err := time.ParseInLocation("2006-01-02 15:04:05.000", string(w[m[2]:m[3]])+" "+string(w[m[4]:m[5]]), time.Local)
-			if err == nil && !t.Before(t0) && !t.After(t1) {
+			t, perr := time.ParseInLocation("2006-01-02 15:04:05.000", string(w[m[2]:m[3]])+" "+string(w[m[4]:m[5]]), time.Local)
+			if perr == nil && !t.Before(t0) && !t.After(t1) {
 				w = append(append(bytes.Clone(w[:m[0]]), " | NOW | "...), w[m[1]:]...)
 			}
 		}
-		if trace != "" && bytes.HasSuffix(w, []byte("\n"+trace+"\n")) {
-			w = append(bytes.Clone(w[:len(w)-len(trace)-1]), "<<STACK>>\n"...)
+		switch errKind {
+		case "e":
+			if bytes.HasSuffix(w, []byte("\n"+trace+"\n")) {
+				w = append(bytes.Clone(w[:len(w)-len(trace)-1]), "<<STACK>>\n"...)
+			}
+			w = bytes.ReplaceAll(w, []byte(fb), []byte("<<FB>>"))
+		case "p": // the *errs.Error is created inside errs: only the shape of its stack text can be checked
+			// (the text must mention this function: scripted carriers in the same record have their own text)
+			for i := 0; i < len(w)-1 && w[len(w)-1] == '\n'; i++ {
+				if w[i] == '\n' {
+					if rest := string(w[i+1 : len(w)-1]); stackShaped(rest) && strings.Contains(rest, "logX") {
+						w = append(bytes.Clone(w[:i+1]), "<<STACK>>\n"...)
+						break
+					}
+				}
+			}
+			w = fbRx.ReplaceAllFunc(w, func(m []byte) []byte {
+				if bytes.Contains(m, []byte("logX")) {
+					return []byte("stack_trace=<<FB>>")
+				}
+				return m
+			})
 		}
-		return bytes.ReplaceAll(w, []byte(fb), []byte("<<FB>>"))
+		return w
 	}
 	return strings.Join(append(ss.collect(canon), ret, ss.sentinels()), " ")
 }
@@ -547,6 +758,11 @@ type node struct {
 	inner   *node
 	trace   string
 }
+
+// loopLV is a LogValuer that resolves to itself for ever.
+type loopLV struct{}
+
+func (l *loopLV) LogValue() slog.Value { return slog.AnyValue(l) }
 
 // lv is a LogValuer resolving to a fixed value.
 type lv struct{ v slog.Value }
@@ -665,6 +881,8 @@ func (n *node) build() slog.Attr {
 			return slog.Time(n.key, mkTime(sec, nsec, hx.Atoi(p[2])))
 		case 'n':
 			return slog.Any(n.key, nil)
+		case 'r':
+			return slog.Any(n.key, &loopLV{})
 		case 'x':
 			return slog.Any(n.key, errors.New(string(hx.UnHex(n.payload))))
 		case 'j':
@@ -689,5 +907,5 @@ func (n *node) build() slog.Attr {
 }
 
 func main() {
-	hx.Main(map[string]hx.Area{"log": logArea{}, "stress": stressArea{}})
+	hx.Main(map[string]hx.Area{"log": logArea{}, "stress": stressArea{}, "recovery": recoveryArea{}})
 }
